@@ -1,5 +1,122 @@
-(* placeholder while the proofs are being written *)
-From Mxj Require Import Model.Json.
-Theorem C06_placeholder : True.
-Proof. exact I. Qed.
-Print Assumptions C06_placeholder.
+(* C06 - JSON encode/decode is lossless and agrees with encoding/json.
+   Statements only; proofs are in Proofs/JsonP.v (chunk loops, runes, what the string encoder emits) and Proofs/C06P.v.
+   Model: Model/Json.v - encoding/json's string encoder (quote_body, HTML escaping on/off) and string decoder
+   (unquote_body) transcribed character by character, the structure around the literals as segments, Map.Json /
+   Map.JsonIndent = marshalJSON(mv, safeEncoding) [+ json.Indent], NewMapJson as a function of the stdlib decoder oracle.
+   Spec: Spec/JsonSpec.v.  The model is tied to /repo by the correspondence check (Run/RunJson.v).
+
+   The model follows /repo after b2598e9 (Json / JsonIndent encode with SetEscapeHTML(safeEncoding) instead of rewriting
+   the marshalled bytes) and f8aa2ac (NewMapJson decodes the first value, then looks at what it is).  The defect the
+   earlier round proved as a `_refuted` witness - a string containing backslash-u003c made Json() write invalid JSON -
+   is kept as `C06_former_default_refuted` about the FORMER code (Spec/JsonSpec.v `rewrite`), next to the theorem that
+   the repaired code writes byte for byte what the former code wrote for every Map free of the three texts. *)
+From Mxj Require Import Spec.JsonSpec Proofs.JsonP Proofs.C06P.
+Import ListNotations.
+
+(* ================================================================== the per-string law *)
+
+(* what encoding/json's string decoder makes of what its string encoder wrote is the string itself - with HTML escaping
+   (safe encoding: <, >, & as < ...) and without it (default encoding: written literally); every valid UTF-8 string:
+   backslashes, quotes, control characters, U+2028/9, and the literal six-character texts included *)
+Theorem C06_per_string_law : forall safe x, utf8_valid x = true -> unquote_body (quote_body safe x) = Some x.
+Proof. exact unquote_quote. Qed.
+Print Assumptions C06_per_string_law.
+
+(* ... and so does every literal in the output of Map.Json(safe) for a Map of JSON types: it decodes to exactly the key /
+   string value it was written for (the structure around the literals - braces, commas, numbers - is encoding/json's) *)
+Theorem C06_literals_roundtrip : forall safe v, json_shaped utf8_valid v = true ->
+  map unquote_body (lits (segments safe v)) = map Some (strs v).
+Proof. exact literals_roundtrip. Qed.
+Print Assumptions C06_literals_roundtrip.
+
+(* the literals of the output are the encoder's literals of the keys and string values, in sorted-key order *)
+Theorem C06_literals_are_quotes : forall safe v, lits (segments safe v) = map (quote_body safe) (strs v).
+Proof. exact lits_segments. Qed.
+Print Assumptions C06_literals_are_quotes.
+
+(* ================================================================== safe and default encoding *)
+
+(* safe_no_literal: the safe encoding never contains a literal <, > or & *)
+Theorem C06_safe_no_literal : forall P v, json_shaped P v = true -> no_html (map_json true v) = true.
+Proof. exact safe_no_literal. Qed.
+Print Assumptions C06_safe_no_literal.
+
+(* default_literal: the default encoding writes <, > and & as themselves *)
+Theorem C06_default_literal : forall c t, is_html c = true -> quote_body false (c :: t) = c :: quote_body false t.
+Proof. exact default_literal. Qed.
+Print Assumptions C06_default_literal.
+
+(* ================================================================== the former implementation of the default encoding *)
+
+(* rewrite_distributes: running the three bytes.Replace passes over the whole marshalled output = running them inside
+   each string literal (the patterns start with a backslash, which occurs in literals only, and hold no double quote,
+   so a match cannot straddle a literal's end) *)
+Theorem C06_rewrite_distributes : forall l, sp_clean l = true ->
+  rewrite (flatten l) = flatten (map_quoted rewrite l).
+Proof. exact rewrite_distributes. Qed.
+Print Assumptions C06_rewrite_distributes.
+
+(* on one string: rewriting the HTML-escaped literal gives the literal the non-escaping encoder writes - provided the
+   string does not contain backslash-u003c, backslash-u003e or backslash-u0026 *)
+Theorem C06_rewrite_is_nohtml : forall x, hazard_free x = true -> rewrite (quote_body true x) = quote_body false x.
+Proof. exact rewrite_is_nohtml. Qed.
+Print Assumptions C06_rewrite_is_nohtml.
+
+(* on whole Maps: the repair keeps the output byte for byte *)
+Theorem C06_former_json_is_current : forall v, json_shaped hazard_free v = true ->
+  rewrite (marshal true v) = map_json false v.
+Proof. exact former_json_is_current. Qed.
+Print Assumptions C06_former_json_is_current.
+
+(* the per-string law was FALSE of the former code: for the six characters backslash-u003c its output is no JSON
+   literal at all (Json() emitted invalid JSON, NewMapJson and Copy failed); the repaired encoding round-trips it *)
+Theorem C06_former_default_refuted :
+  utf8_valid x_u003c = true /\ unquote_body (rewrite (quote_body true x_u003c)) = None /\
+  unquote_body (quote_body false x_u003c) = Some x_u003c.
+Proof. exact former_default_refuted. Qed.
+Print Assumptions C06_former_default_refuted.
+
+(* ================================================================== NewMapJson *)
+
+(* NewMapJson accepts exactly the (non-empty) inputs whose first value encoding/json decodes as an object (returned as
+   it is) or an array (wrapped under "object"), and passes the decoder's error on otherwise; decv is the stdlib decoder
+   (first value of the text into an interface{}) *)
+Theorem C06_new_map_json_accepts_exactly : forall decv b, b <> [] -> new_map_json decv b = accept_spec decv b.
+Proof. exact new_map_json_accepts_exactly. Qed.
+Print Assumptions C06_new_map_json_accepts_exactly.
+
+(* the documented exception (recorded finding empty-input-accepted): "empty or nil begets empty" *)
+Theorem C06_new_map_json_empty : forall decv, new_map_json decv [] = Ok (VMap []).
+Proof. exact new_map_json_empty. Qed.
+Print Assumptions C06_new_map_json_empty.
+Theorem C06_new_map_json_empty_refuted : exists decv b, decv b = Err EEOF /\ new_map_json decv b <> accept_spec decv b.
+Proof. exact new_map_json_empty_refuted. Qed.
+Print Assumptions C06_new_map_json_empty_refuted.
+
+(* NOT PROVED: json_roundtrip at the structural level - decode_segs usenum (segments safe v) = Some (v with every map
+   sorted by key) for all JSON-shaped v.  decode_segs is this development's model of encoding/json's decoder on the
+   segment layer (the environment, not mxj code); it is compared with NewMapJson(Map.Json(m)) and Map.Copy() on every
+   run (JRound cases).  What is proved is the part that depends on mxj's choice of encoding: every literal of the output
+   decodes to its string (C06_literals_roundtrip), for both encodings. *)
+
+(* ================================================================== non-vacuity *)
+
+Local Open Scope string_scope.
+(* a Map of JSON types whose keys and values contain <, >, &, backslashes, quotes, a control character, U+2028, a
+   non-ASCII rune and the literal texts backslash-u003c / backslash-u0026: every hypothesis holds, the default encoding
+   writes < literally, the safe one does not, both decode back *)
+Definition ex_v : value :=
+  VMap [(s "k<" ++ bsl :: s "u003c", VStr (s "a<b>&" ++ [bsl; dq] ++ hx "0a" ++ hx "e280a8" ++ hx "c3a9" ++ bsl :: s "u0026"));
+        (s "n", VList [VFlt (s "1.5"); VNil; VBool true; VJNum (s "12")])].
+Example C06_nonvacuous :
+  json_shaped utf8_valid ex_v = true /\
+  no_html (map_json true ex_v) = true /\ no_html (map_json false ex_v) = false /\
+  decode_segs false (segments false ex_v) = decode_segs false (segments true ex_v) /\
+  map unquote_body (lits (segments false ex_v)) = map Some (strs ex_v).
+Proof. repeat split; vm_compute; reflexivity. Qed.
+
+(* a hazard-free Map with <, > and & : former and current default encodings agree *)
+Definition ex_w : value := VMap [(s "a&b", VStr (s "x<y>" ++ [bsl] ++ s "u003"))].
+Example C06_compat_nonvacuous :
+  json_shaped hazard_free ex_w = true /\ rewrite (marshal true ex_w) = map_json false ex_w.
+Proof. split; vm_compute; reflexivity. Qed.
